@@ -264,6 +264,21 @@ func mutate(in *parseIn, q string) (string, bool) {
 			return q, false
 		}
 		return q + " | label_format d=a, d=b", true
+	case "dup_label_format_mixed":
+		if in.Kind != "log" {
+			return q, false
+		}
+		return q + " | label_format d=a, e=b, d=\"t\"", true
+	case "dup_label_format_mixed2":
+		if in.Kind != "log" {
+			return q, false
+		}
+		return q + " | label_format d=\"t\", d=a", true
+	case "dup_label_format_tmpl":
+		if in.Kind != "log" {
+			return q, false
+		}
+		return q + " | label_format d=\"t\", e=a, d=\"u\"", true
 	case "empty_selector_matcher":
 		return strings.Replace(q, "{", "{,", 1), strings.Contains(q, "{")
 	case "quantile_no_param", "param_not_allowed", "topk_no_param", "topk_zero", "sort_grouping", "range_grouping", "unwrap_missing", "unwrap_forbidden", "missing_range":
@@ -521,7 +536,7 @@ func wireExpr(e logql.Expr) F {
 // ---- random driver: log queries from the log-query generator, metric queries from the metric generators
 
 var parseMuts = []string{"drop_close_brace", "drop_close_paren", "drop_close_bracket", "double_pipe", "trailing_op", "trailing_junk", "unterminated_string",
-	"bad_regex", "bad_label_regex", "unwrap_in_log", "dup_label_format", "empty_selector_matcher", "quantile_no_param", "param_not_allowed", "topk_no_param",
+	"bad_regex", "bad_label_regex", "unwrap_in_log", "dup_label_format", "dup_label_format_mixed", "dup_label_format_mixed2", "dup_label_format_tmpl", "empty_selector_matcher", "quantile_no_param", "param_not_allowed", "topk_no_param",
 	"topk_zero", "sort_grouping", "range_grouping", "unwrap_missing", "unwrap_forbidden", "missing_range"}
 
 func (famParse) Gen(r *rand.Rand, n int, _ map[string]string) []any {
